@@ -41,6 +41,7 @@ func leftRightIndependentResult(context *exprContext, expr *grammar.Grammar) (Re
 	for _, cn := range expr.BSR.GetAllNTChildren() {
 		for _, c := range cn {
 			children = append(children, &c)
+			break
 		}
 	}
 
@@ -87,6 +88,7 @@ func leftRightDependentResult(context *exprContext, expr *grammar.Grammar) error
 	for _, cn := range expr.BSR.GetAllNTChildren() {
 		for _, c := range cn {
 			children = append(children, &c)
+			break
 		}
 	}
 
